@@ -7,7 +7,7 @@ import os
 from typing import Dict, List, Optional, Tuple
 
 from .base import *  # noqa: F401,F403
-from .. import boolfn
+from .. import boolfn, constfold
 
 ADAPT = "mosaik.adapters.init_and_get_adapter"
 V3V2 = "mosaik.adapters.V3ToV2Adapter"
@@ -65,6 +65,7 @@ def _request_shapes(ctx: Ctx, c: Collector) -> None:
             if len(items) != 3:
                 c.bad("shape", fi.qualname, label, f"request has {len(items)} elements instead of [name, args, kwargs]", loc)
                 continue
+            _displays(ctx).append((name, req))
             if name == T.const("step"):
                 args, kwargs = items[1], items[2]
                 okargs = args[0] == "tuple" and len(args[1]) == 3
@@ -82,8 +83,35 @@ def _request_shapes(ctx: Ctx, c: Collector) -> None:
         raise AnalysisError(f"R23 found only {n} request sites (8 confirmed by hand)")
 
 
-def _unpacked(s: Summary, req: Term) -> bool:
-    return True
+def _displays(ctx: Ctx) -> List[Tuple[Term, Term]]:
+    """(name, request display) of every proxy send site (filled by _request_shapes)."""
+    d = getattr(ctx, "_r23_displays", None)
+    if d is None:
+        d = []
+        ctx._r23_displays = d  # type: ignore[attr-defined]
+    return d
+
+
+def _concrete(ctx: Ctx, name: str) -> Tuple[List[Term], List[Term]]:
+    """The request displays sent under `name`, and representatives of all other requests (a
+    non-constant name -- extra methods -- is represented by a name no adapter knows)."""
+    mine, others = [], []
+    for n, req in _displays(ctx):
+        if n == T.const(name):
+            mine.append(req)
+        elif n[0] == "const":
+            others.append(req)
+        else:
+            others.append(T.replace(req, {n: T.const("<extra method>")}))
+    return mine, others
+
+
+def _deciding(req: Term, concrete: Term):
+    def truthy(t: Term) -> Optional[bool]:
+        if T.contains(t, req):
+            return constfold.decide(t, {req: concrete})
+        return None
+    return truthy
 
 
 def _v3v2(ctx: Ctx, c: Collector) -> None:
@@ -92,32 +120,50 @@ def _v3v2(ctx: Ctx, c: Collector) -> None:
     s = ctx.summ(qn)
     me, req = T.var(fi.params[0]), T.var(fi.params[1])
     fwd = [e for e in s.of_kind("call") if e.term[1] == ("attr", ("attr", me, "_out"), "send")]
-    is_step = T.canon_cmp("==", ("idx", req, T.const(0)), T.const("step"))
-    pr = []
+    steps, others = _concrete(ctx, "step")
+    pr: Optional[List[str]] = []
     if not fwd:
         pr.append("requests are not forwarded")
+    elif not steps:
+        raise AnalysisError("R23: no `step` request display found at the proxy send sites")
     else:
-        trunc = [("idx", ("idx", req, T.const(1)), ("slice", lo, T.const(2), T.NONE)) for lo in (T.const(0), T.NONE)]
-        want_step = [("tuple", (T.const("step"), t, ("idx", req, T.const(2)))) for t in trunc] + \
-                    [("bag", tuple(("elem", x, (), ()) for x in (T.const("step"), t, ("idx", req, T.const(2)))), "list") for t in trunc]
         try:
-            for flag in (True, False):
-                fired = [e for e in fwd if boolfn.guards_hold_leaves(e.guards, {is_step: flag})]
+            for flag, concrete in [(True, r) for r in steps] + [(False, r) for r in others]:
+                truthy = _deciding(req, concrete)
+                rname = T.show(constfold.fold(("idx", concrete, T.const(0))))
+                fired = [e for e in fwd if boolfn.guards_hold_leaves(e.guards, {}, truthy)]
                 if len(fired) != 1:
-                    pr.append(f"{'step' if flag else 'other'} requests are forwarded {len(fired)} times")
+                    pr.append(f"{rname} requests are forwarded {len(fired)} times")
                     continue
-                arg = boolfn.resolve_phi(unalias(fired[0].term[2][0], s, fi), {is_step: flag})
-                if flag and arg not in want_step:
-                    if T.contains(arg, ("idx", req, T.const(1))) and not any(T.contains(arg, t) for t in trunc):
+                arg = boolfn.resolve_phi(unalias(fired[0].term[2][0], s, fi), {}, truthy)
+                if not flag:
+                    if arg != req:
+                        pr.append(f"{rname} requests are forwarded as {T.show(arg)[:80]} instead of unchanged")
+                    continue
+                got = constfold.display(constfold.fold(T.replace(T.strip(arg), {req: concrete})))
+                sent = constfold.display(concrete)
+                sargs = constfold.display(sent[1][1])
+                if got is None or got[0] == "dict" or len(got[1]) != 3:
+                    pr.append(f"for `step` the forwarded request is {T.show(arg)[:100]} instead of ('step', args[0:2], kwargs)")
+                    continue
+                gargs = constfold.display(got[1][1])
+                if got[1][0] != T.const("step") or got[1][2] != sent[1][2]:
+                    pr.append(f"for `step` the forwarded request is {T.show(arg)[:100]} instead of ('step', args[0:2], kwargs)")
+                elif gargs is None or sargs is None:
+                    if got[1][1] == sent[1][1]:
                         pr.append("for `step` the positional arguments are not truncated to (time, inputs): max_advance reaches a pre-v3 simulator")
                     else:
-                        pr.append(f"for `step` the forwarded request is {T.show(arg)[:100]} instead of ('step', args[0:2], kwargs)")
-                if not flag and arg != req:
-                    pr.append(f"other requests are forwarded as {T.show(arg)[:80]} instead of unchanged")
+                        pr.append(f"for `step` the forwarded positional arguments are {T.show(got[1][1])[:80]}, not understood as args[0:2]")
+                elif tuple(gargs[1]) != tuple(sargs[1][:2]):
+                    if len(gargs[1]) > 2:
+                        pr.append("for `step` the positional arguments are not truncated to (time, inputs): max_advance reaches a pre-v3 simulator")
+                    else:
+                        pr.append(f"for `step` the forwarded positional arguments are {T.show(got[1][1])[:80]} instead of (time, inputs)")
         except boolfn.NotBoolean as ex:
             c.unk("feature", qn, "max_advance (v3): step forwards args[0:2]", f"condition not understood: {ex}", fi.loc)
             pr = None
     if pr is not None:
+        pr = list(dict.fromkeys(pr))
         c.add("feature", qn, "max_advance (v3): step forwards args[0:2]", VIOLATED if pr else DISCHARGED, "; ".join(pr), fi.loc)
     qn = V3V2 + ".meta"
     fi = ctx.func(qn)
@@ -134,25 +180,29 @@ def _v2v1(ctx: Ctx, c: Collector) -> None:
     fi = ctx.func(qn)
     s = ctx.summ(qn)
     me, req = T.var(fi.params[0]), T.var(fi.params[1])
-    is_sd = T.canon_cmp("==", ("idx", req, T.const(0)), T.const("setup_done"))
     fwd = [e for e in s.of_kind("call") if e.term[1] == ("attr", ("attr", me, "_out"), "send")]
-    pr = []
+    sds, others = _concrete(ctx, "setup_done")
+    if not sds:
+        raise AnalysisError("R23: no `setup_done` request display found at the proxy send sites")
+    pr: List[str] = []
     try:
-        for flag in (True, False):
-            a = {is_sd: flag}
-            f = [e for e in fwd if boolfn.guards_hold_leaves(e.guards, a)]
-            r = [e for e in s.returns if boolfn.guards_hold_leaves(e.guards, a)]
+        for flag, concrete in [(True, r) for r in sds] + [(False, r) for r in others]:
+            truthy = _deciding(req, concrete)
+            rname = T.show(constfold.fold(("idx", concrete, T.const(0))))
+            f = [e for e in fwd if boolfn.guards_hold_leaves(e.guards, {}, truthy)]
+            r = [e for e in s.returns if boolfn.guards_hold_leaves(e.guards, {}, truthy)]
             if flag:
                 if f:
-                    pr.append("`setup_done` is forwarded to a simulator that does not know it")
-                if not r or boolfn.resolve_phi(r[0].term, a) != T.NONE:
+                    pr.append(f"`setup_done` (sent as {T.show(concrete)}) is forwarded to a simulator that does not know it")
+                if not r or boolfn.resolve_phi(r[0].term, {}, truthy) != T.NONE:
                     pr.append("`setup_done` is not answered locally (with None)")
             else:
-                if len(f) != 1 or boolfn.resolve_phi(unalias(f[0].term[2][0], s, fi), a) != req:
-                    pr.append("other requests are not forwarded unchanged")
+                if len(f) != 1 or boolfn.resolve_phi(unalias(f[0].term[2][0], s, fi), {}, truthy) != req:
+                    pr.append(f"{rname} requests are not forwarded unchanged")
     except boolfn.NotBoolean as ex:
         c.unk("feature", qn, "setup_done (v2.2): answered locally, not forwarded", f"condition not understood: {ex}", fi.loc)
         return
+    pr = list(dict.fromkeys(pr))
     c.add("feature", qn, "setup_done (v2.2): answered locally, not forwarded", VIOLATED if pr else DISCHARGED, "; ".join(pr), fi.loc)
 
 
@@ -229,10 +279,29 @@ def _gating(ctx: Ctx, c: Collector) -> None:
     c.add("gate", ADAPT, "adapter chain per version: thresholds and nesting", VIOLATED if pr else DISCHARGED, "; ".join(pr), loc)
     # rejections
     raises = [e for e in s.of_kind("raise") if not e.tries or all(r != "handler" for _, r in e.tries)]
-    too_new = [e for e in raises if any(T.guard_term(g) in (("cmp", "<=", lst(4), ver),) for g in e.guards)]
+    # which raise fires for a representative too-new / acceptable version (constant folding of the list comparison)
+    def fires(e: Event, v: List[int]) -> Optional[bool]:
+        try:
+            for g in e.guards:
+                gt = T.guard_term(g)
+                if not T.contains(gt, ver):
+                    return None
+                if not holds(gt, v):
+                    return False
+            return True
+        except boolfn.NotBoolean:
+            return None
+    too_new = [e for e in raises if fires(e, [1000, 0]) is True]
     pr = []
     if not too_new or too_new[0].term[1] != T.glob(SCENERR):
         pr.append("versions >= 4 are not rejected with ScenarioError")
+    else:
+        for v in ([4], [4, 0], [4, 0, 1], [5], [10, 2]):
+            if not any(fires(e, v) for e in too_new):
+                pr.append(f"version {'.'.join(map(str, v))} is not rejected as too new")
+        for v in ([3], [3, 0], [3, 0, 16], [3, 9], [2, 2], [1]):
+            if any(fires(e, v) for e in too_new):
+                pr.append(f"version {'.'.join(map(str, v))} is rejected as too new")
     mism = [e for e in raises if e not in too_new and e.term[0] == "call" and e.term[1] == T.glob(SCENERR)]
     expl = None
     for b in s.of_kind("bind"):
